@@ -58,13 +58,19 @@ def direct_close(zone2, east2, north2, az2to1, hemisphere, ellipsoid):
     p2 = grid2geo(zone2, east2, north2, hemisphere, ellipsoid)
     return az2to1 + p2[3]
 
-def lsf(zone1, east1, north1, zone2, east2, north2, hemisphere, ellipsoid, cmscale, falseeast):
+def lsf(zone1, east1, north1, zone2, east2, north2, hemisphere, ellipsoid, cmscale, falseeast, falsenorth):
     if zone1 != zone2:
         s = grid2geo(zone2, east2, north2, hemisphere, ellipsoid)
         t = geo2grid(s[0], s[1], zone1, ellipsoid)
         zone2 = t[1]
         east2 = t[2]
         north2 = t[3]
+        # a station on the equator is labelled with the other hemisphere by geo2grid: its northing in the convention of the line
+        if t[0].lower() != hemisphere.lower():
+            if hemisphere.lower() == 'south':
+                north2 = min(north2 + falsenorth, float(falsenorth))
+            else:
+                north2 = max(north2 - falsenorth, 0.0)
     e1 = east1 - falseeast
     e2 = east2 - falseeast
     lat1 = grid2geo(zone1, east1, north1, hemisphere, ellipsoid)[0]
@@ -227,7 +233,7 @@ def signature_rule(repo, rep):
                          od, oi, od[0] if od else '?'), expected="['hemisphere', 'ellipsoid', ...] in both", actual='%s / %s' % (od, oi))
 
 
-def first_estimate_rule(repo, rep):
+def first_estimate_rule(repo, rep, clamped=False):
     """the plane first estimate of point 2 is radiations(east1, north1, grid bearing in DEGREES, grid distance): the iteration forgets a poor
     seed, but the seed itself goes through grid2geo inside line_sf - a bearing handed over in another unit sends it grid_dist due north,
     and for a southern point closer to the equator than the line is long the seed northing passes 10 000 000 and the routine raises for
@@ -244,6 +250,9 @@ def first_estimate_rule(repo, rep):
         got = [stmt_text(a) for a in c.args[:4]]
         if got == want:
             rep.holds('R-UNITS', key, where(f, c), 'the first estimate is radiations(%s): easting, northing, grid bearing (degrees) and grid distance as given' % ', '.join(got))
+        elif clamped:
+            rep.info('R-UNITS', key, where(f, c), 'the plane first estimate is `%s`, not radiations(%s); its northing is clamped onto the grid before line_sf sees it and the iteration '
+                     'forgets its seed (an error of 1e-3 in the scale factor is 1e-8 after one pass): information only' % (stmt_text(c)[:70], ', '.join(want)))
         else:
             rep.violated('R-UNITS', key, where(f, c), 'the plane first estimate is `%s`: radiations / polar2rect take the bearing in decimal degrees and the arguments as given - with `%s` the '
                          'seed lies %s away from where the line goes, and where that is beyond the equator (a southern point 1 nearer to it than the line is long) grid2geo rejects the seed '
@@ -251,9 +260,77 @@ def first_estimate_rule(repo, rep):
                          expected='radiations(%s)' % ', '.join(want), actual=stmt_text(c)[:80])
 
 
+def seed_range_rule(repo, rep):
+    """the plane first estimate of point 2 seeds the iteration through line_sf, whose grid2geo accepts northings in [0, 10 000 000] only.
+    The estimate differs from the true point by the arc-to-chord correction (tens of metres on long lines far from the central meridian):
+    for a second point closer to the equator than that it leaves the grid and the routine raises for a valid line.  Interval analysis of
+    vincdir_utm up to the first line_sf call: the northing handed over is bounded by [0, false northing]."""
+    from ..intervals import Interp, TOP
+    f = repo.func('geodepy.geodesy', 'vincdir_utm')
+    key = 'R-RANGE::geodepy/geodesy.py::vincdir_utm::seed-northing-on-the-grid'
+    prj = common.projection_constants(repo).get('utm', {})
+    attrs = dict((('utm', k), (v, v)) for k, v in prj.items() if isinstance(v, (int, float)))
+    ip = Interp({}, attrs=attrs)
+    env = {}
+    target = None
+    for st in f.node.body:
+        calls = [c for c in ast.walk(st) if isinstance(c, ast.Call) and getattr(c.func, 'id', '') == 'line_sf']
+        if calls and not isinstance(st, (ast.While, ast.For)):
+            target = calls[0]
+            break
+        if isinstance(st, (ast.While, ast.For)):
+            break
+        nxt = ip.run([st], env)
+        env = nxt if nxt is not None else env
+    if target is None or len(target.args) < 6:
+        rep.holds('R-RANGE', key, where(f, f.node), 'no line_sf call on a plane estimate before the iteration', work=False)
+        return True
+    v = ip.ev(target.args[5], env)
+    fn = prj.get('falsenorth', 10000000)
+    if v is not TOP and v[0] >= 0 and v[1] <= fn:
+        rep.holds('R-RANGE', key, where(f, target), 'the seed northing handed to line_sf is kept inside [0, %s]' % fn)
+        return True
+    else:
+        rep.violated('R-RANGE', key, where(f, target), '`%s` hands line_sf the northing of the PLANE estimate as it comes: for a second point nearer to the equator than the arc-to-chord correction '
+                     '(tens of metres) it lies outside [0, %s] and grid2geo raises - vincdir_utm(55, 880000, 9930000, 319.4125211181888, 92187.85126330961) raises "Invalid Northing" for the '
+                     'line that vincinv_utm computed to (820000, 9999990)' % (stmt_text(target)[:60], fn), expected='the estimate clamped onto the grid', actual='unbounded')
+
+
+def reprojection_hemisphere_rule(repo, rep):
+    """line_sf re-projects a station given in another zone with geo2grid, which labels a point ON the equator 'North' with northing 0: read with
+    the line's hemisphere 'south' that northing is a point near the pole.  The hemisphere label of the re-projected station (element 0 of
+    the geo2grid result) has to be looked at, as vincdir_utm does for its second point."""
+    f = repo.func('geodepy.geodesy', 'line_sf')
+    key = 'R-WIRE::geodepy/geodesy.py::line_sf::hemisphere-of-the-reprojected-station'
+    names = [st.targets[0].id for st in ast.walk(f.node) if isinstance(st, ast.Assign) and len(st.targets) == 1 and isinstance(st.targets[0], ast.Name)
+             and isinstance(st.value, ast.Call) and getattr(st.value.func, 'id', '') == 'geo2grid']
+    unpacked = [st for st in ast.walk(f.node) if isinstance(st, ast.Assign) and isinstance(st.targets[0], ast.Tuple) and isinstance(st.value, ast.Call)
+                and getattr(st.value.func, 'id', '') == 'geo2grid']
+    if not names and not unpacked:
+        rep.holds('R-WIRE', key, where(f, f.node), 'line_sf does not re-project through geo2grid', work=False)
+        return
+    looked = False
+    for nm in names:
+        for n in ast.walk(f.node):
+            if isinstance(n, ast.Subscript) and isinstance(n.value, ast.Name) and n.value.id == nm and isinstance(n.slice, ast.Constant) and n.slice.value == 0:
+                looked = True
+    for st in unpacked:
+        first = st.targets[0].elts[0]
+        if isinstance(first, ast.Name) and any(isinstance(n, ast.Name) and n.id == first.id and isinstance(n.ctx, ast.Load) for n in ast.walk(f.node)):
+            looked = True
+    if looked:
+        rep.holds('R-WIRE', key, where(f, f.node), 'the hemisphere label geo2grid returns for the re-projected station is looked at')
+    else:
+        rep.violated('R-WIRE', key, where(f, f.node), 'line_sf takes zone, easting and northing of the re-projected station from geo2grid and never its hemisphere label: a station exactly on the '
+                     'equator comes back as (\'North\', northing 0) and is then read in the southern convention - line_sf(55, 820000, 9960000, 56, 180000, 10000000) gives 1.0009730720 instead of '
+                     '1.0009818661 (8.8e-6 off; vincinv_utm 0.43 m short over 48.8 km)', expected='the northing brought into the convention of the line\'s hemisphere', actual='label ignored')
+
+
 def direct_rules(repo, rep):
     hemisphere_of_point2_rule(repo, rep)
-    first_estimate_rule(repo, rep)
+    clamped = seed_range_rule(repo, rep)
+    first_estimate_rule(repo, rep, clamped=bool(clamped))
+    reprojection_hemisphere_rule(repo, rep)
     f = repo.func('geodepy.geodesy', 'vincdir_utm')
     rep.analysed(f)
     w = where(f, f.node)
@@ -368,7 +445,7 @@ def lsf_rules(repo, rep):
     orc = Oracle(ORACLE, base=repo, opaque=opq)
     Eo = sym_ellipsoid(orc.ev, orc.repo, 'ellipsoid')
     kw = dict((s, Rat.sym(s)) for s in syms)
-    ref = orc.call('lsf', ellipsoid=Eo, cmscale=P.fields['cmscale'], falseeast=P.fields['falseeast'], **kw)
+    ref = orc.call('lsf', ellipsoid=Eo, cmscale=P.fields['cmscale'], falseeast=P.fields['falseeast'], falsenorth=P.fields['falsenorth'], **kw)
     check_equal(rep, 'R-FORMULA', 'R-FORMULA::geodepy/geodesy.py::line_sf::lsf', w, val, ref,
                 'line scale factor = k0 (1 + K1 (1 + K2)), K1 = (E1^2+E1E2+E2^2)/(6 rho nu k0^2), K2 = (...)/(36 rho nu k0^2) at the mean latitude; '
                 'a second point given in another zone is first re-projected into zone 1')
@@ -386,7 +463,7 @@ def lsf_rules(repo, rep):
     Eos = sym_ellipsoid(orc_s.ev, orc_s.repo, 'ellipsoid')
     kw_s = dict(kw)
     kw_s['zone2'] = Rat.sym('zone1')
-    ref_s = orc_s.call('lsf', ellipsoid=Eos, cmscale=Ps.fields['cmscale'], falseeast=Ps.fields['falseeast'], **kw_s)
+    ref_s = orc_s.call('lsf', ellipsoid=Eos, cmscale=Ps.fields['cmscale'], falseeast=Ps.fields['falseeast'], falsenorth=Ps.fields['falsenorth'], **kw_s)
     check_equal(rep, 'R-FORMULA', 'R-FORMULA::geodepy/geodesy.py::line_sf::lsf[same zone]', w, val_s, ref_s,
                 'line scale factor of two stations in one zone = k0 (1 + K1 (1 + K2)) for EVERY pair of eastings (a station on the central meridian included)')
     for q, oname, txt in (('rho', 'rho_ref', 'rho = a(1-e^2)/(1-e^2 sin^2 lat)^1.5'), ('nu', 'nu_ref', 'nu = a/sqrt(1-e^2 sin^2 lat)')):
@@ -460,5 +537,33 @@ def controls(repo):
             n.value.right.value.id = 'pt1'
             return n
         substitute(fn, pred, make, limit=1, expect=1)
+    def drop_seed_clamp(fn):
+        # the plane estimate goes to line_sf as it comes
+        for i, st in enumerate(fn.body):
+            if isinstance(st, (ast.While, ast.For)):
+                break
+            if (isinstance(st, ast.Assign) and isinstance(st.targets[0], ast.Name) and st.targets[0].id == 'north2'
+                    and isinstance(st.value, ast.Call) and getattr(st.value.func, 'id', '') in ('min', 'max')):
+                del fn.body[i]
+                return
+        raise AnalysisError('control: no clamp of the seed northing in vincdir_utm')
+    out.append(('seed-northing-unclamped', repo.variant({'geodepy/geodesy.py': replace_in_function(src, 'vincdir_utm', drop_seed_clamp)}), 'vincdir_utm::seed-northing-on-the-grid'))
+
+    def drop_label_test(fn):
+        # line_sf forgets the hemisphere label of the re-projected station
+        done = 0
+        for parent in ast.walk(fn):
+            body = getattr(parent, 'body', None)
+            if not isinstance(body, list):
+                continue
+            for i, st in enumerate(list(body)):
+                if isinstance(st, ast.If) and any(isinstance(n, ast.Subscript) and isinstance(n.slice, ast.Constant) and n.slice.value == 0
+                                                  and isinstance(n.value, ast.Name) and n.value.id.startswith('stn2') for n in ast.walk(st.test)):
+                    body[i] = ast.Pass()
+                    done += 1
+        if done != 1:
+            raise AnalysisError('control: %d tests of the re-projected hemisphere label in line_sf' % done)
+    out.append(('reprojected-label-ignored', repo.variant({'geodepy/geodesy.py': replace_in_function(src, 'line_sf', drop_label_test)}), 'line_sf::hemisphere-of-the-reprojected-station'))
+
     out.append(('convergence-of-wrong-point', repo.variant({'geodepy/geodesy.py': replace_in_function(src, 'vincinv_utm', wrong_conv)}), 'vincinv_utm::grid2to1'))
     return out
